@@ -18,15 +18,20 @@ EXTENDS RegexAPI, Json
 
 CONSTANTS Vals            \* value slots, e.g. {1,2,3}
 
-sa == 1  sb == 2  sc == 3  sx == 4
+sa == 1  sb == 2  sc == 3  sx == 4  snl == 10
 Pats == << Alt(Lit(sa), LitStr(<<sa,sb>>)),                                        \* a|ab
            Cat(Cap(Star(Lit(sa),TRUE)), Cap(Alt(Lit(sa),Lit(sb)))),                \* (a*)(a|b)
            Star(Lit(sa), FALSE),                                                   \* a*?
            Cat(Cap(Alt(Lit(sa), LitStr(<<sa,sb>>))), Cap(Alt(Lit(sc), LitStr(<<sb,sc,sx>>)))),   \* (a|ab)(c|bcx)
            Plus(Cls({sa,sb}), TRUE),                                               \* [ab]+
-           Cat(Cap(Quest(Lit(sa),FALSE)), Star(Cls({sa,sb}),TRUE)) >>              \* (a??)[ab]*
-PosixOK == {1, 4, 5}      \* expressible in POSIX ERE with the same meaning
-Hays == << <<>>, <<sa,sb>>, <<sa,sb,sc,sx>>, <<sb,sa,sa>>, <<sx,sa,sb,sa,sb>> >>
+           Cat(Cap(Quest(Lit(sa),FALSE)), Star(Cls({sa,sb}),TRUE)),                \* (a??)[ab]*
+           Cat(Look("bol"), Cat(Plus(Lit(sa),TRUE), Look("eol"))),                 \* (?m)^a+$ - in POSIX syntax plain ^a+$: the
+                                                                                   \* two syntaxes read the same text differently
+           Cat(Look("bot"), Cat(Plus(Lit(sa),TRUE), Look("eot"))) >>                \* ^a+$ as Perl syntax reads it
+PosixOK == {1, 4, 5, 7}   \* expressible in POSIX ERE with the same meaning
+\* MarshalText yields the pattern TEXT and UnmarshalText reads it with Perl syntax: the text of POSIX value 7 is "^a+$"
+PerlReadingOfPosixText(p) == IF p = 7 THEN 8 ELSE p
+Hays == << <<>>, <<sa,sb>>, <<sa,sb,sc,sx>>, <<sb,sa,sa>>, <<sx,sa,sb,sa,sb>>, <<sb,snl,sa,sa,snl,sa>> >>
 
 Nil == [pat |-> 0, longest |-> FALSE, posix |-> FALSE]
 VARIABLE obj
@@ -41,7 +46,8 @@ Apply(a) ==
     [] a.op = "CompilePOSIX" -> [obj EXCEPT ![a.v] = [pat |-> a.p, longest |-> TRUE,  posix |-> TRUE]]
     [] a.op = "Copy"         -> [obj EXCEPT ![a.w] = obj[a.v]]
     [] a.op = "Longest"      -> [obj EXCEPT ![a.v].longest = TRUE]
-    [] a.op = "Marshal"      -> [obj EXCEPT ![a.w] = [pat |-> obj[a.v].pat, longest |-> FALSE, posix |-> FALSE]]
+    [] a.op = "Marshal"      -> [obj EXCEPT ![a.w] = [pat |-> IF obj[a.v].posix THEN PerlReadingOfPosixText(obj[a.v].pat) ELSE obj[a.v].pat,
+                                                      longest |-> FALSE, posix |-> FALSE]]
     [] a.op = "Use"          -> obj
 
 Actions ==
